@@ -82,6 +82,8 @@ def tasks(tier):
     add("all", "in-loop", 2, 0, kind="S", variant="single-result")
     add("all", "sync-facade", 0, 0, kind="A", variant="guarded-validator")    # validator and guard on the same candidate
     add("single:1", "sync-facade", 0, 0, kind="A", variant="guarded-validator")
+    add("single:2", "sync-facade", 0, 0, kind="S", variant="with-signature")  # the only coroutine callback carries __signature__
+    add("single:4", "in-loop", 1, 0, kind="S", variant="with-signature")
     for first in (0,):
         add("all", "sync-facade", 1, first, kind="G", expr=True)
         add("guards", "sync-facade", 1, first, kind="G")
@@ -97,7 +99,7 @@ BOUNDS = {
     "methods)}; drivers {plain call without a loop, awaited inside a running loop}; scenario A (C04): first event with a raise, or a nested send optionally "
     "followed by a raise, at any callback invocation, then a follow-up event; scenario S: one nested send; pre-state a and the from-construction scenario "
     "(activation through the first event); coroutine callbacks yield once to the loop between begin and end; a guard written as a boolean expression over two "
-    "coroutine guards; a list of two coroutine guards that yield unevenly; variants: first event returning None with a queued event returning a value, int-valued guards, a candidate carrying both a validator and a guard.",
+    "coroutine guards; a list of two coroutine guards that yield unevenly; variants: first event returning None with a queued event returning a value, int-valued guards, a candidate carrying both a validator and a guard, callbacks carrying an explicit __signature__ attribute (the only coroutine callback among them).",
     "thorough": "all pre-states, all 7 single-coroutine twins on every first event, scenario A with the in-loop driver.",
 }
 OUTSIDE = "machines driven in turn from different OS threads (the symbolic engine is per-thread; C06 covers the loop-per-thread facade structurally); rtc=False (rejected by the async engine at construction, documented)"
@@ -191,6 +193,9 @@ def run(ctx, params):
         if variant == "decorated" and twin == "async":
             # `on_transition` of the machine is a plain function that returns the coroutine of the real callback
             am["async_behind_plain_decorator"] = [["machine", "on_transition"]]
+        if variant == "with-signature":
+            # every callback (plain twin and coroutine twin alike) carries an explicit __signature__ attribute
+            am["with_signature_attribute"] = [[p_, n_] for p_, ns_ in am["methods"].items() for n_ in ns_]
         is_async = twin == "async"
         kw = dict(script_kw)
         kw["yields"] = 1 if is_async else 0
